@@ -38,7 +38,7 @@ ASSUMPTIONS = [
     "inner basin's widened interval reaches the 0/360 seam (the library's gate pair cannot express that; not claimed)",
     "RaggedArray state sequences have >= 2 frames per trajectory (RaggedArray slicing that yields an empty row is not "
     "claimed to work, see DESIGN section 5); 2-D arrays have >= 1 row",
-    "state ids are small non-negative integers of a signed integer dtype",
+    "state ids are non-negative integers representable in the array dtype (int8/16/32/64, uint16), small or widely spaced",
 ]
 SHARDS = {"quick": 4, "thorough": 16}
 
@@ -552,7 +552,17 @@ def table_case(draw, form, max_rows=6, max_len=14):
         if form == "ragged" and draw(st.booleans()):
             Lr = draw(st.integers(min_len, max_len))
         rows.append(draw(one_row(Lr, n_states)))
-    return {"rows": rows, "form": form, "dtype": draw(st.sampled_from(["int16", "int32", "int64"])),
+    dtype = draw(st.sampled_from(["int16", "int32", "int64", "int8", "uint16"]))
+    # one table in four relabels the small state ids with widely spaced ones (state ids need not be small: a difference
+    # that is a multiple of 2^8 / 2^16 / 2^32 must still count as a transition)
+    if draw(st.integers(0, 3)) == 0:
+        top = int(np.iinfo(dtype).max)
+        pool = [v for v in [0, 256, 512, 65536, 131072, 196608 + 3, 2 ** 32, 2 ** 33, 2 ** 40 + 1, top, top - 256] if 0 <= v <= top]
+        labels = draw(st.lists(st.sampled_from(pool), min_size=min(n_states, len(set(pool))), max_size=min(n_states, len(set(pool))), unique=True))
+        while len(labels) < n_states:
+            labels.append(len(labels) + 1 if (len(labels) + 1) not in labels else len(labels) + 7)
+        rows = [[labels[v] for v in r] for r in rows]
+    return {"rows": rows, "form": form, "dtype": dtype,
             "layout": draw(st.sampled_from(["C", "view"]))}
 
 
